@@ -310,8 +310,17 @@ def mon_finite(trace, prop="C20"):
     inf_rows = np.isinf(init["inv_duration"])
     if trace.get("error") is not None:
         return out   # the run reported the problem
+    K = init["K"]
     for st in trace["steps"]:
         t = st["t"]
+        post_ev = st.get("ev_post")
+        if post_ev is not None and not st.get("ev_error"):
+            kl = np.zeros(len(K))
+            for tr in post_ev:
+                if tr["status"] in ("happening", "rebuilding", "recovering") and tr["dmg"] is not None:
+                    kl = kl + tr["dmg"]
+            if np.any(kl > K * (1 + 1e-12)):
+                out.append(_fail(prop, trace, t, "impact larger than the capital stock accepted silently", sig="overkill-accepted"))
         for key in ("prod_post", "cap", "opt", "ord_post", "over_post_alpha"):
             v = st.get(key)
             if v is not None and not np.all(np.isfinite(v)):
@@ -478,6 +487,10 @@ def mon_c07(trace):
             if tr["status"] in ("happening", "recovering") and tr["arb"] is not None:
                 ar = np.maximum(ar, tr["arb"])
                 touched |= tr["arb"] != 0
+        if np.any(kl > K * (1 + 1e-12)):
+            f = _first_bad(kl <= K * (1 + 1e-12))
+            out.append(_fail("C07", trace, t, "more capital destroyed than the industry owns and the event was not rejected", kl[f], K[f], f,
+                             sig="overkill-accepted"))
         if e1["delta"] is None or not np.all(np.isfinite(e1["delta"])):
             out.append(_fail("C07", trace, t, "capacity loss not finite", sig="nonfinite"))
             continue
